@@ -90,10 +90,14 @@ func (s *state) walk(node ast.Node) {
 			s.walk(node)
 		}
 	case *ast.TemplateNode:
+		// the mode applies to this template's body only: a template tag written
+		// inside another template's body does not change the mode around it.
+		var enclosing = s.autoescape
 		if node.Autoescape != ast.AutoescapeUnspecified {
 			s.autoescape = node.Autoescape
 		}
 		s.walk(node.Body)
+		s.autoescape = enclosing
 	case *ast.HeaderParamNode:
 		// TODO: Validate param types.
 	case *ast.ListNode:
